@@ -1,4 +1,4 @@
-import PilotaModel.Lemmas.PbRepeated
+import PilotaModel.Lemmas.PbUnknown
 /-
   C05 — protobuf encode/decode round trip and encoded_len agreement.
   Property theorems only; helper lemmas live in `PilotaModel/Lemmas/Pb*.lean`.
@@ -69,6 +69,81 @@ theorem packed_appends (c : Codec) (hn : c.isNumeric = true) (vs : List SVal) (h
     (hlen : c.payloadLenSum vs < 2 ^ 64) (acc : List SVal) (rest : Bytes) :
     c.mergeRepeated .len acc (encodeVarint (c.payloadLenSum vs) ++ (vs.flatMap c.encPayload ++ rest)) = .ok (acc ++ vs, rest) :=
   Codec.mergeRepeated_packed c hn vs hv hlen acc rest
+
+/-! ### message level: what pilota-build emits -/
+
+/-- **round trip and `encoded_len` for every generated message**: every well-formed schema
+(field numbers in range and distinct per message, references resolve), every message of it, every
+value of the generated struct (`HasType`: scalars in the range of their Rust type, map keys
+distinct, nesting within the recursion limit of 100, lengths `usize`), both settings of
+`pb-encode-default-value`: `Message::decode (encode m) = Ok m` and `encoded_len m` is the number
+of bytes written.  With the feature off `HasType` also asks that a map value that is `==` its
+default (IEEE `==`: either zero) is the default bit for bit — see `negzero_counterexample`. -/
+theorem pb_roundtrip (s : Schema) (hs : WFSchema s = true) (flag : Bool) (i : Nat) (m : Slots) (hm : HasType s flag i m) :
+    decode s i (encode s flag i m) = .ok m ∧ encodedLen s flag i m = (encode s flag i m).length :=
+  ⟨decode_encode s flag hs i m hm, encodedLen_encode s flag hs i m hm.1⟩
+
+/-- nested message field through `message::encode` / `message::merge`: key, length prefix,
+exact consumption, and field-wise merge into whatever value `x` the field held; with a budget
+that covers the nesting of `y`.  (`pb_roundtrip` is this with `x` the default.) -/
+theorem message_rt (s : Schema) (hs : WFSchema s = true) (flag : Bool) (tag : Nat) (ht : tagOk tag = true) (i : Nat)
+    (hi : i < s.length) (x y : EVal) (ctx : Nat) (hy : okE s flag (.msg i) y = true) (hn : needE y ≤ ctx)
+    (hx : shapeE s (.msg i) x = true) (rest : Bytes) :
+    encE s flag tag (.msg i) y = keyBytes tag .len ++ payE s flag (.msg i) y ∧
+    mergeE s (recurOf s ctx) (.msg i) x .len (payE s flag (.msg i) y ++ rest) = .ok (mergeValE s (.msg i) x y, rest) ∧
+    lenE s flag tag (.msg i) y = (encE s flag tag (.msg i) y).length :=
+  ⟨encE_split s flag tag (.msg i) y hy,
+   mergeE_pay s flag hs (.msg i) (by simp [FTy.wfIn, hi]) x y ctx hy hn hx rest,
+   lenE_eq s flag hs tag ht (.msg i) y hy⟩
+
+/-- map field (`hash_map::encode / merge`, key = 1 / value = 2 entries), both flag settings:
+a struct whose only field is the map round-trips; compared as association lists with distinct
+keys in the order the encoder iterated. -/
+theorem map_rt (s : Schema) (hs : WFSchema s = true) (flag : Bool) (i t : Nat) (kc : Codec) (vty : FTy)
+    (hd : decls s i = [.map t kc vty]) (kvs : Pairs) (hm : HasType s flag i (.cons (.map kvs) .nil)) :
+    decode s i (encode s flag i (.cons (.map kvs) .nil)) = .ok (.cons (.map kvs) .nil) ∧
+    lenPairs s flag t kc vty kvs = (encPairs s flag t kc vty kvs).length := by
+  refine ⟨decode_encode s flag hs i _ hm, ?_⟩
+  have h := encodedLen_encode s flag hs i _ hm.1
+  simpa [encodedLen, encode, hd, lenSlots, lenSlot, encSlots, encSlot] using h
+
+/-- oneof field: a struct whose only field is the oneof round-trips, whichever member is set. -/
+theorem oneof_rt (s : Schema) (hs : WFSchema s = true) (flag : Bool) (i : Nat) (vs : List (Nat × FTy))
+    (hd : decls s i = [.oneof vs]) (v : Slot) (hm : HasType s flag i (.cons v .nil)) :
+    decode s i (encode s flag i (.cons v .nil)) = .ok (.cons v .nil) :=
+  decode_encode s flag hs i _ hm
+
+/-! ### known finding PB2: negative zero as a map value, feature off
+
+Full statement (FALSE for the tree as it is): `pb_roundtrip` without the map-value clause of
+`HasType`.  The map codec omits a value that is `==` its default; for floats that is IEEE
+equality, so `-0.0` is omitted and decodes as `+0.0`. -/
+
+/-- the witness replayed by the harness: `map<int32, float> {1: -0.0}` encodes (feature off) to
+the entry `08 01` without a value and decodes to `{1: +0.0}`. -/
+theorem negzero_counterexample :
+    encode negzeroSchema false 0 negzeroMsg = [0x0a, 0x02, 0x08, 0x01] ∧
+    decode negzeroSchema 0 [0x0a, 0x02, 0x08, 0x01] = .ok poszeroMsg ∧ poszeroMsg ≠ negzeroMsg :=
+  ⟨negzero_encode, negzero_decode, by decide⟩
+
+/-- with the feature on the same value is inside `pb_roundtrip`. -/
+theorem negzero_flag_on : WFSchema negzeroSchema = true ∧ HasType negzeroSchema true 0 negzeroMsg := by decide
+
+/-! non-vacuity: a schema with a required nested message, a recursive optional field, a
+repeated sint32, a map with message values and a oneof; a value using all of them. -/
+def demoSchema : Schema :=
+  [[.single 1 (.msg 1) false, .single 2 (.msg 0) true, .rep 3 (.scalar .sint32), .map 4 .faststr (.msg 1),
+    .oneof [(5, .scalar .double), (536870911, .msg 0)]],
+   [.single 1 (.scalar .int32) false]]
+def demoInner : EVal := .msg (.cons (.req (.s (.int (-7)))) .nil)
+def demoLeaf : Slots := .cons (.req demoInner) (.cons .none (.cons (.rep .nil) (.cons (.map .nil) (.cons .none .nil))))
+def demoMsg : Slots :=
+  .cons (.req demoInner) (.cons (.some (.msg demoLeaf))
+    (.cons (.rep (.cons (.s (.int (-1))) (.cons (.s (.int 2147483647)) .nil)))
+      (.cons (.map (.cons (.bs [0x61]) demoInner (.cons (.bs []) demoInner .nil)))
+        (.cons (.one 536870911 (.msg demoLeaf)) .nil))))
+example : WFSchema demoSchema = true := by decide
+example : HasType demoSchema false 0 demoMsg ∧ HasType demoSchema true 0 demoMsg := by decide
 
 /-! non-vacuity: tags at both ends of the range, a negative `int32` (ten bytes on the wire), both
 float zeros, a string with a four-byte code point. -/
